@@ -874,11 +874,45 @@ def combinator_model(facts, inner=None, depth=0, field_model=None, callees=None)
             if va in ("Some", "Ok"):
                 return V(va, run_closure(closure_of(call, 1, argv), [a0[2]]))
             return None
-        if p.endswith("Option::and_then"):
+        if p.endswith(("Option::and_then", "Result::and_then")):
             if va == "None":
                 return a0
-            if va == "Some":
+            if va == "Err":
+                return V("Err", a0[2])
+            if va in ("Some", "Ok"):
                 return run_closure(closure_of(call, 1, argv), [a0[2]])
+            return None
+        if p.endswith(("Option::or_else", "Result::or_else")):
+            if va in ("Some", "Ok"):
+                return a0
+            if va == "None":
+                return run_closure(closure_of(call, 1, argv), [])
+            if va == "Err":
+                return run_closure(closure_of(call, 1, argv), [a0[2]])
+            return None
+        if p.endswith(("Option::and", "Result::and")):
+            if va in ("None", "Err"):
+                return a0
+            if va in ("Some", "Ok"):
+                return argv[1]
+            return None
+        if p.endswith(("Option::or", "Result::or")):
+            if va in ("Some", "Ok"):
+                return a0
+            if va in ("None", "Err"):
+                return argv[1]
+            return None
+        if p.endswith(("Option::ok_or", "Option::ok_or_else")):
+            if va == "Some":
+                return V("Ok", a0[2])
+            if va == "None":
+                return V("Err", None)
+            return None
+        if p.endswith(("Result::ok",)):
+            if va == "Ok":
+                return V("Some", a0[2])
+            if va == "Err":
+                return V("None", None)
             return None
         if p.endswith("Option::filter"):
             if va == "None":
